@@ -511,8 +511,28 @@ class Program:
             return None
         body = [s for s in p.getter.node.body if not _is_docstring(s)]
         if len(body) == 1 and isinstance(body[0], ast.Return) and body[0].value is not None:
+            return self._fold(ci, body[0].value, 0)
+        return None
+
+    def _fold(self, ci, e, depth):
+        """fold literals, self.<const prop>, min/max/len/tuple of those"""
+        if depth > 4:
+            return None
+        try:
+            return ast.literal_eval(e)
+        except Exception:
+            pass
+        if isinstance(e, ast.Attribute) and isinstance(e.value, ast.Name) and e.value.id == "self":
+            if depth < 4:
+                return self.const_prop(ci, e.attr)
+            return None
+        if isinstance(e, ast.Call) and isinstance(e.func, ast.Name) and e.func.id in ("min", "max", "len", "tuple") \
+                and len(e.args) == 1 and not e.keywords:
+            v = self._fold(ci, e.args[0], depth + 1)
+            if v is None:
+                return None
             try:
-                return ast.literal_eval(body[0].value)
+                return {"min": min, "max": max, "len": len, "tuple": tuple}[e.func.id](v)
             except Exception:
                 return None
         return None
